@@ -241,9 +241,10 @@ def main(args, script):
 
 RULES = {
     "history": "seeded swarm histories over the public API (one PRNG per run from sha256(VERIF_SEED:check:run_index)); "
-               "a case is one run; distinct_nontrivial counts distinct abstract states reached after a non-skipped step: "
-               "hash of the sorted multiset of per-object abstractions (class, dtype kind, nullable, length bucket, role, named?) "
-               "plus operation kind, key form and outcome",
+               "a case is one run; distinct_nontrivial counts distinct abstract situations reached by a non-skipped step: "
+               "hash of (operation, key form, value form, sub-function, fault planned?, identity policy, outcome, exception type, "
+               "abstractions of the objects the step involved = (class, dtype kind, nullable, length bucket, role, named?, derivation depth), "
+               "number of live tables and of live column views, both capped at 3)",
 }
 
 
